@@ -1,0 +1,12 @@
+//go:build verif
+
+// Contracts for package config (compiled only with -tags=verif; checked by /verif/bin/govc).
+package config
+
+//@ func (WorkspaceConfig).GetPlatform(w) (r)
+//@   pure
+//@   ensures [os_arch] r == w.OS + "/" + w.Arch
+
+//@ func GetPathAbsoluteToWorkspaceRoot(path) (r)
+//@   pure
+//@   ensures [join_root] r == pathJoin(Global.WorkspaceRoot, path)
